@@ -38,6 +38,8 @@ KINDS = {
     'b_len': len, 'b_abs': abs, 'b_max': max, 'b_divmod': divmod, 'c_add': operator.add,
     'lib_escape': re.escape, 'lib_copy': copy.copy, 'lib_odict': collections.OrderedDict,
     'malt_fn': malt.operators.logical.not_,
+    'falsy_bound': T.EMPTY.total, 'falsy_callable': T.EMPTY, 'falsy_cmeth': T.EMPTY.make,
+    'falsy_partial': T.functools.partial(T.EMPTY.total, 3),
 }
 
 # call shapes: (positional template, keyword template); 'x','y','z' are replaced by
@@ -72,6 +74,10 @@ SHAPES = {
     'lib_copy': [(('L',), None)],
     'lib_odict': [((), None), ((), {'a': 'x'})],
     'malt_fn': [(('x',), None)],
+    'falsy_bound': [(('x',), None), (('x', 'y'), {}), ((), {'a': 'x', 'b': 'y'})],
+    'falsy_callable': [(('x',), None)],
+    'falsy_cmeth': [(('x',), None)],
+    'falsy_partial': [((), None), (('x',), None), ((), {'b': 'x'})],
 }
 
 
@@ -134,11 +140,11 @@ def prewarm(name):
 STATUSES = [ag_ctx.Status.UNSPECIFIED, ag_ctx.Status.ENABLED, ag_ctx.Status.DISABLED]
 
 CONVERTIBLE = {'fn', 'lam', 'bound', 'unbound', 'cmeth', 'cmeth_inst', 'smeth', 'callable_obj',
-               'decorated', 'raises'}
+               'decorated', 'raises', 'falsy_bound', 'falsy_callable', 'falsy_cmeth'}
 NEVER = {'cls', 'namedtuple', 'lru', 'execd', 'artifact', 'dnc', 'b_len', 'b_abs', 'b_max',
          'b_divmod', 'c_add', 'lib_escape', 'lib_copy', 'lib_odict'}
 ALLOWLISTED_UNLESS_USER = {'malt_fn', 'gen'}
-PARTIAL_OF = {'part1': 'fn', 'part2': 'fn', 'part_kw': 'fn'}
+PARTIAL_OF = {'part1': 'fn', 'part2': 'fn', 'part_kw': 'fn', 'falsy_partial': 'falsy_bound'}
 
 
 def expected_conversion(kind, rec, ur, icuc, st):
